@@ -1,5 +1,6 @@
 import StatimeModel.Model.TimeDriver
 import StatimeModel.Model.WireDriver
+import StatimeModel.Model.PortDriver
 /-
 model-driver: line protocol, ops in (stdin), canonical observations out (stdout).
 One output line per input line (multi-part outputs are joined with " ; ").
@@ -7,13 +8,17 @@ One output line per input line (multi-part outputs are joined with " ; ").
 open Statime
 
 structure DState where
-  dummy : Nat := 0
+  inst : Option Inst := none
 
 def stepLine (st : DState) (line : String) : DState × String :=
   match words line with
   | "TIME" :: rest => (st, timeLine rest)
   | "DEC" :: rest => (st, decLine rest)
-  | _ => (st, "bad-op")
+  | "CMP" :: rest => (st, cmpLine rest)
+  | [] => (st, "bad-op")
+  | ws =>
+    let (i, o) := instLine st.inst ws
+    ({ st with inst := i }, o)
 
 partial def loop (h : IO.FS.Stream) (out : IO.FS.Stream) (st : DState) : IO Unit := do
   let line ← h.getLine
